@@ -3,6 +3,7 @@ package scheduler
 import (
 	"errors"
 	"fmt"
+	"sync"
 	"time"
 )
 
@@ -17,6 +18,7 @@ type ExecutionGraph struct {
 	from       map[string][]string
 	to         map[string][]string
 	error      error
+	errorMu    sync.Mutex
 	start, end time.Time
 }
 
@@ -114,7 +116,17 @@ func (g *ExecutionGraph) cycleDfs(t string, visited map[string]bool) error {
 
 // LastError returns latest error appeared during stages execution
 func (g *ExecutionGraph) LastError() error {
+	g.errorMu.Lock()
+	defer g.errorMu.Unlock()
+
 	return g.error
+}
+
+// setError records an error of a stage; stages may fail concurrently
+func (g *ExecutionGraph) setError(err error) {
+	g.errorMu.Lock()
+	g.error = err
+	g.errorMu.Unlock()
 }
 
 // Duration returns execution duration
